@@ -851,6 +851,7 @@ func LoadCanonical(repo, verif string, overlay map[string][]byte) (*Ctx, error) 
 		return nil, err
 	}
 	ref := loadReference(verif)
+	c.refSyms, c.overlay = ref, overlay
 	if ref == nil {
 		c.Note("canonicalisation: no reference_symbols.json — names are taken as they are")
 		return c, nil
@@ -880,6 +881,7 @@ func LoadCanonical(repo, verif string, overlay map[string][]byte) (*Ctx, error) 
 		c2.Note("  renamed: %s", n)
 	}
 	c2.Renamed = rs.notes
+	c2.refSyms, c2.overlay = ref, ov2
 	computeNewFuncs(c2, ref)
 	return c2, nil
 }
@@ -892,6 +894,28 @@ func LoadCanonical(repo, verif string, overlay map[string][]byte) (*Ctx, error) 
 
 var gNewFuncs = map[*ssa.Function]bool{}
 var gCallSitesOf = map[*ssa.Function][]ssa.CallInstruction{}
+
+// New struct types (not in the reference, not a renamed reference type): state a refactoring moved out
+// of local or captured variables into an object of its own. Their fields are transparent to value
+// slices: a load of field i derives from whatever any function stores into field i (field-based).
+var gNewTypes = map[string]bool{}               // "<pkg>.<Type>"
+var gNewTypeStores = map[string][]ssa.Value{} // "<pkg>.<Type>#<field index>" -> stored values
+
+func newTypeFieldKey(fa *ssa.FieldAddr) (string, bool) {
+	pt, ok := fa.X.Type().Underlying().(*types.Pointer)
+	if !ok {
+		return "", false
+	}
+	n, ok := pt.Elem().(*types.Named)
+	if !ok || n.Obj().Pkg() == nil {
+		return "", false
+	}
+	k := n.Obj().Pkg().Path() + "." + n.Obj().Name()
+	if !gNewTypes[k] {
+		return "", false
+	}
+	return fmt.Sprintf("%s#%d", k, fa.Field), true
+}
 
 func ssaFuncKey(fn *ssa.Function) (pkg, key string, ok bool) {
 	if fn == nil || fn.Pkg == nil || fn.Parent() != nil || fn.Synthetic != "" {
@@ -932,6 +956,42 @@ func computeNewFuncs(c *Ctx, ref map[string]*refPkg) {
 		if rp.Funcs[key] == nil {
 			gNewFuncs[fn] = true
 		}
+	}
+	gNewTypes = map[string]bool{}
+	gNewTypeStores = map[string][]ssa.Value{}
+	for path, p := range c.PkgByID {
+		rp := ref[path]
+		if rp == nil || p.Types == nil || !strings.HasPrefix(path, repoMod) {
+			continue
+		}
+		for _, name := range p.Types.Scope().Names() {
+			if tn, ok := p.Types.Scope().Lookup(name).(*types.TypeName); ok && !tn.IsAlias() && rp.Types[name] == nil {
+				if _, isStruct := tn.Type().Underlying().(*types.Struct); isStruct {
+					gNewTypes[path+"."+name] = true
+				}
+			}
+		}
+	}
+	if len(gNewTypes) > 0 {
+		for fn := range c.AllFuncs {
+			for _, b := range fn.Blocks {
+				for _, in := range b.Instrs {
+					if st, ok := in.(*ssa.Store); ok {
+						if fa, isFA := st.Addr.(*ssa.FieldAddr); isFA {
+							if k, isNew := newTypeFieldKey(fa); isNew {
+								gNewTypeStores[k] = append(gNewTypeStores[k], st.Val)
+							}
+						}
+					}
+				}
+			}
+		}
+		var tn []string
+		for k := range gNewTypes {
+			tn = append(tn, shortPkg(k))
+		}
+		sort.Strings(tn)
+		c.Note("new struct type(s) not in the reference tree, fields followed store-to-load: %s", strings.Join(tn, ", "))
 	}
 	if len(gNewFuncs) == 0 {
 		return
